@@ -501,7 +501,10 @@ func buildC10(tier string) *core.Plan {
 		map[string]any{"a": map[string]any{"b": nil, "c.d": 1}},
 		map[string]any{"a": false, "b": 0},
 		map[string]any{"a": "", "b": -1.5},
-		map[string]any{"a": map[string]any{"b": false}, "b": []any{nil, 0}})
+		map[string]any{"a": map[string]any{"b": false}, "b": []any{nil, 0}},
+		// keys holding the characters the string forms are made of
+		map[string]any{"x:y": map[string]any{"v": 1}, "x": map[string]any{"v": 2}},
+		map[string]any{"a b": 1, "a": map[string]any{"b c": []any{1}, "$$d": 2}})
 	// templates under $output: false as reference targets
 	hiddenBases := []map[string]any{
 		{"tmpl": map[string]any{"$output": false, "x": 1, "y": map[string]any{"z": 2}}, "k": 1},
